@@ -91,7 +91,33 @@ pub fn determine_constraints(
         _ => {}
     }
 
+    // A "touch" cannot be honoured between two segments whose raws would lex as one
+    // token once adjacent (`update_actor CASCADE`), would open a comment (`- -1`), or
+    // where the first is an inline comment (whatever follows on its line is swallowed):
+    // the edit would change the code, not its layout. Fall back to a single space and
+    // keep any line break.
+    if pre_constraint == Spacing::Touch || post_constraint == Spacing::Touch {
+        if let Some((prev_block, next_block)) = prev_block.zip(next_block) {
+            if prev_block.segment().is_type(SyntaxKind::InlineComment)
+                || would_fuse(prev_block.segment().raw(), next_block.segment().raw())
+            {
+                return (Spacing::Single, Spacing::Single, false);
+            }
+        }
+    }
+
     (pre_constraint, post_constraint, strip_newlines)
+}
+
+/// Whether `prev` directly followed by `next` reads as one token or starts a comment.
+fn would_fuse(prev: &str, next: &str) -> bool {
+    let (Some(a), Some(b)) = (prev.chars().next_back(), next.chars().next()) else {
+        return false;
+    };
+    let is_word = |c: char| c.is_alphanumeric() || c == '_';
+    // Two words read as one; a doubled unary operator reads as a comment marker (`--`)
+    // or as another operator (`~~`); `/*` opens a block comment.
+    (is_word(a) && is_word(b)) || matches!((a, b), ('-', '-') | ('~', '~') | ('/', '*'))
 }
 
 pub fn process_spacing(
